@@ -103,9 +103,11 @@ func NewProcess(opts ...ProcOpts) *Process {
 }
 
 func (p *Process) run() int {
+	verifYield("run.enter", p.getName())
 	if p.isState(types.ProcessStateTerminating) {
 		return 0
 	}
+	verifYield("run.afterTerminatingCheck", p.getName())
 
 	if err := p.validateProcess(); err != nil {
 		log.Error().Err(err).Msgf(`Failed to run command ["%v"] for process %s`, strings.Join(p.getCommand(), `" "`), p.getName())
@@ -140,6 +142,7 @@ loop:
 		p.Lock()
 		p.setExitCode(p.command.ExitCode())
 		p.Unlock()
+		verifYield("run.afterWait", p.getName())
 		log.Info().
 			Str("process", p.getName()).
 			Int("exit_code", p.getExitCode()).
@@ -163,6 +166,7 @@ loop:
 			log.Debug().Str("process", p.getName()).Msg("process stopped while waiting to restart")
 			break loop
 		case <-time.After(p.getBackoff()):
+			verifYield("run.afterBackoff", p.getName())
 			p.handleInfo("\n")
 			continue
 		}
@@ -390,6 +394,7 @@ func (p *Process) stopProcess(cancelReadinessFuncs bool) error {
 		}
 		return nil
 	}
+	verifYield("stop.afterIsRunningCheck", p.getName())
 	p.setState(types.ProcessStateTerminating)
 	p.stopProbes()
 	if cancelReadinessFuncs {
